@@ -69,6 +69,23 @@ func (s *SyntaxErrorListener) Error() string {
 	return errStr
 }
 
+// parseWithListener runs the 'packet' start rule with listener attached to both the
+// lexer and the parser, and reports input the start rule left unconsumed: the rule has
+// no EOF, so it silently stops at the first token that cannot start a definition.
+func parseWithListener(parser *gen.PacketDslParser, stream *antlr.CommonTokenStream, listener *SyntaxErrorListener) gen.IPacketContext {
+	parser.RemoveErrorListeners()
+	parser.AddErrorListener(listener)
+	if lexer, ok := stream.GetTokenSource().(*gen.PacketDslLexer); ok {
+		lexer.RemoveErrorListeners()
+		lexer.AddErrorListener(listener)
+	}
+	tree := parser.Packet()
+	if next := stream.LT(1); !listener.HasErrors() && next != nil && next.GetTokenType() != antlr.TokenEOF {
+		listener.SyntaxError(parser, next, next.GetLine(), next.GetColumn(), "unexpected input '"+next.GetText()+"'", nil)
+	}
+	return tree
+}
+
 // AddIndent4ln adds 4-space indent and a newline (similar to fmt.Println)
 func AddIndent4ln(s string) string {
 	return AddIndent4(s) + "\n"
